@@ -461,12 +461,70 @@ func rtEngine(c *Ctx) {
 				packRootExec(c, op)
 			} else if strings.HasPrefix(op, "rt-notmp ") {
 				readersNoTmp(c, op)
+			} else if strings.HasPrefix(op, "rt-oddperms ") {
+				packOddPerms(c, op)
 			}
 		}
 		return
 	}
 	packRootsAll(c)
+	for _, fm := range []string{"tar", "zip"} {
+		packOddPerms(c, "rt-oddperms "+fm)
+	}
 	rtEngineRest(c)
+}
+
+// packOddPerms: a pack reads. A source tree with modes a packer might be tempted to "fix up" — files without any read bit,
+// with setuid / setgid / sticky and no owner-read, directories without the search bit for others — packed with every kind
+// of pack filter (keeping, stripping, rejecting): mode, owner and times of every source entry are afterwards what they
+// were, whether the pack succeeded or was refused. Recipe: "rt-oddperms <tar|zip>".
+func packOddPerms(c *Ctx, op string) {
+	c.Begin(op)
+	fmtName := strings.Fields(op)[1]
+	caseCounter++
+	base := filepath.Join(c.Work, fmt.Sprintf("pop%d", caseCounter))
+	defer rmrf(base)
+	src, wh := filepath.Join(base, "src"), filepath.Join(base, "wh")
+	os.MkdirAll(wh, 0755)
+	fsx := Fileset{{Name: "", Kind: 'd', Perms: 0755, Uid: 0, Gid: 0, Sec: 1e9},
+		{Name: "nor", Kind: 'f', Perms: 0200, Uid: 0, Gid: 0, Sec: 1e9, Content: []byte("write-only")},
+		{Name: "none", Kind: 'f', Perms: 0, Uid: 7, Gid: 8, Sec: 1e9, Content: []byte("no bits")},
+		{Name: "sgid-nor", Kind: 'f', Perms: 02260, Uid: 0, Gid: 0, Sec: 1e9, Content: []byte("g")},
+		{Name: "suid-nor", Kind: 'f', Perms: 04200, Uid: 0, Gid: 0, Sec: 1e9, Content: []byte("u")},
+		{Name: "sticky-nor", Kind: 'f', Perms: 01220, Uid: 0, Gid: 0, Sec: 1e9, Content: []byte("t")},
+		{Name: "suid", Kind: 'f', Perms: 04755, Uid: 0, Gid: 50, Sec: 1e9, Content: []byte("su")},
+		{Name: "d", Kind: 'd', Perms: 03310, Uid: 9, Gid: 9, Sec: 1e9},
+		{Name: "d/inner", Kind: 'f', Perms: 0060, Uid: 9, Gid: 9, Sec: 1e9, Content: []byte("i")},
+		{Name: "tmp", Kind: 'd', Perms: 01777, Uid: 0, Gid: 0, Sec: 1e9}}
+	c.EmitR(op, "skip", "skip")
+	if Materialize(fsx, src, nil) != nil {
+		return
+	}
+	fn := funcsFor(fmtName)
+	before, _ := Snapshot(src)
+	for _, pfs := range []string{losslessPackStr,
+		"uid=keep,gid=keep,mtime=keep,sticky=keep,setid=ignore,dev=keep",
+		"uid=keep,gid=keep,mtime=keep,sticky=ignore,setid=keep,dev=keep",
+		"uid=keep,gid=keep,mtime=keep,sticky=ignore,setid=ignore,dev=keep",
+		"uid=keep,gid=keep,mtime=keep,sticky=keep,setid=reject,dev=keep",
+		"uid=1000,gid=1000,mtime=@1262304000,sticky=ignore,setid=ignore,dev=reject"} {
+		for _, tgt := range []api.WarehouseLocation{"", whAddr("ca", wh)} {
+			id, err, pan := safeCall(func() (api.WareID, error) {
+				return fn.pack(context.Background(), api.PackType(fmtName), src, api.MustParseFilesetPackFilter(pfs), tgt, rio.Monitor{})
+			})
+			r := resTok(id, err, pan)
+			c.H("oddperms:" + fmtName + ":" + strings.Join(strings.Fields(r)[:1], ""))
+			if pan != "" {
+				c.PropFail("panic-pack", "pack of a tree with unreadable-mode files panicked: "+pan, op)
+			}
+			after, _ := Snapshot(src)
+			if before.Digest(true) != after.Digest(true) {
+				c.PropFail("pack-mutates-source", fmt.Sprintf("a %s pack with filter %s (answer: %s) changed the source tree: %s", fmtName, pfs, strings.Fields(r)[0], DiffFilesets(before, after, true)), op)
+				Materialize(fsx, src+"-again", nil)
+				return
+			}
+		}
+	}
 }
 
 func init() {
